@@ -392,6 +392,9 @@ type verifC20Snap struct {
 	kv    map[string]string
 	chans map[uint64]*verifC20Chan
 	nodes map[[33]byte]*verifC20Node
+	// zomb holds the zombie-index entry ("<key1 hex>|<key2 hex>", "" = not a
+	// zombie) of every scid the harness itself brought into the zombie index.
+	zomb map[uint64]string
 }
 
 func verifC20PolFP(p *models.ChannelEdgePolicy) (*verifC20Pol, string) {
@@ -496,6 +499,18 @@ func (c *verifC20Ctx) snapshot() *verifC20Snap {
 	}, func() {})
 	if err != nil {
 		c.t.Fatalf("C20 snapshot ForEachNode: %v", err)
+	}
+	s.zomb = map[uint64]string{}
+	for _, scid := range c.zTracked {
+		isZ, k1, k2, err := c.vgraph.IsZombieEdge(c.ctx, scid)
+		if err != nil {
+			c.t.Fatalf("C20 snapshot IsZombieEdge(%d): %v", scid, err)
+		}
+		if isZ {
+			s.zomb[scid] = hex.EncodeToString(k1[:]) + "|" + hex.EncodeToString(k2[:])
+		} else {
+			s.zomb[scid] = ""
+		}
 	}
 	return s
 }
@@ -673,6 +688,9 @@ type verifC20Ctx struct {
 	recs      []*verifC20Rec
 	pending   []*verifC20Rec
 	bchecked  int
+
+	// scids the harness brought into the zombie index (snapshot.zomb).
+	zTracked []uint64
 }
 
 const verifC20Wait = 90 * time.Second
@@ -986,6 +1004,9 @@ type verifC20Scn struct {
 
 	snap *verifC20Snap
 	log  []map[string]any
+
+	zombies []*verifC20Zombie
+	zBy     map[uint64]*verifC20Zombie
 }
 
 var verifC20Extra = []byte{0x4d, 0x02, 0xaa, 0xbb}
@@ -2044,9 +2065,11 @@ func (s *verifC20Scn) submit(idx int, label string, m lnwire.Message) {
 		entry["peer"] = "shared"
 	}
 	rec := &verifC20Rec{Idx: idx, Label: label, Msg: m, Hex: whex, Scid: scid}
+	tSubmit := time.Now()
 	rec.fut = c.gossiper.ProcessRemoteAnnouncement(c.ctx, m, peer)
 	c.recs = append(c.recs, rec)
 	flushKey := c.quiesce()
+	tDone := time.Now()
 	if !rec.tryResolve() {
 		c.poll("message result or premature cache entry", func() bool {
 			return rec.tryResolve() || c.inPrematureCache(m)
@@ -2071,6 +2094,11 @@ func (s *verifC20Scn) submit(idx int, label string, m lnwire.Message) {
 		}
 	}
 	changed := s.judge(label, kind, before, after, allowed, ca, na, entry)
+	caScid := uint64(0)
+	if al := allowed[fmt.Sprintf("chan/%d", scid)]; ca != nil && al != nil && al.why == "valid-new-channel" {
+		caScid = scid
+	}
+	s.judgeZombies(label, kind, m, caScid, before, after, tSubmit, tDone, entry)
 	c.waitBroadcast(flushKey)
 	s.checkBroadcasts(label)
 	s.snap = after
@@ -2173,10 +2201,596 @@ func (s *verifC20Scn) mine(idx int) {
 		}
 	}
 	s.judge("mine", "blocks", before, after, allowed, nil, nil, entry)
+	s.judgeZombies("mine", "blocks", nil, 0, before, after, time.Time{}, time.Time{}, entry)
 	c.waitBroadcast(flushKey)
 	s.checkBroadcasts("mine")
 	s.snap = after
 	vc.Sig(fmt.Sprintf("mine|n%d|c%v", len(cs), len(entry["changed"].([]string)) > 0))
+}
+
+// ---------------------------------------------------------------------------
+// Zombie index: generator, reference model and oracle
+// (zombie_stays_dead_unless_authentic).
+//
+// The harness brings channels into the zombie index of the real graph DB in
+// every shape the index can hold (both node keys, only node 1's, only node
+// 2's, none), through the calls lnd itself uses: ChannelGraph.MarkEdgeZombie /
+// Builder.MarkZombieEdge ("direct") and ChannelGraph.DeleteChannelEdges(strict,
+// markZombie=true) on a channel that is in the graph, which is exactly what
+// Builder.pruneZombieChans issues ("prune" / "prune-strict"). It then delivers
+// channel_updates for them (signer node 1 / node 2 / stranger x direction bit
+// x timestamp classes) and the channel_announcement that legitimately
+// re-adds a resurrected channel.
+//
+// Reference: an update may remove a zombie entry (resurrect) only if its
+// signature verifies under the real key of the node that owns the flagged
+// direction (known to the harness from its own key set, never taken from the
+// zombie index), that very key is the one stored in the entry's slot for that
+// node, and the timestamp is not older than the prune window
+// (IsStaleEdgePolicy: "fall back to our usual ChannelPruneExpiry"). An update
+// that fails any of the three must leave the entry untouched and must not be
+// kept in the premature-update cache for replay; "not applied" and "not
+// relayed" are judged by the graph and broadcast oracles as for any message.
+// ---------------------------------------------------------------------------
+
+type verifC20Zombie struct {
+	Slot   *verifC20Slot
+	Scid   uint64
+	N      [2][33]byte          // real node keys of the channel (node1 < node2)
+	K      [2]*btcec.PrivateKey // their private keys
+	Route  string               // direct | prune | prune-strict
+	Stored [2][33]byte          // keys recorded in the zombie index entry
+	Allow  [2]bool              // Stored[i] == N[i]
+	Shape  string               // both | only1 | only2 | none | odd(..)
+}
+
+const verifC20Day = 86400
+
+// per-key emission budget of the zombie oracle (the process-wide budget is 50
+// violation records) and the number of records it emitted (kept out of the
+// "scenario is hopeless, stop" threshold).
+var (
+	verifC20ZSeen    = map[string]int{}
+	verifC20ZEmitted int
+)
+
+func (s *verifC20Scn) zViolation(key, detail string, w map[string]any) {
+	s.vc.Count("z_violations", 1)
+	verifC20ZSeen[key]++
+	if verifC20ZSeen[key] > 3 {
+		return
+	}
+	verifC20ZEmitted++
+	s.vc.Violation("zombie_stays_dead_unless_authentic", key, detail, s.witness(w))
+}
+
+func verifC20SoftViolations(vc *verifCtx) int {
+	return vc.Violations() - verifC20Min(verifC20ReencodeSeen, 3) - verifC20ZEmitted
+}
+
+func (z *verifC20Zombie) slotName(i int) string {
+	var blank [33]byte
+	switch z.Stored[i] {
+	case blank:
+		return "-"
+	case z.N[0]:
+		return "n1"
+	case z.N[1]:
+		return "n2"
+	}
+	return "x"
+}
+
+func (z *verifC20Zombie) classify() {
+	z.Allow = [2]bool{z.Stored[0] == z.N[0], z.Stored[1] == z.N[1]}
+	a, b := z.slotName(0), z.slotName(1)
+	switch {
+	case a == "n1" && b == "n2":
+		z.Shape = "both"
+	case a == "n1" && b == "-":
+		z.Shape = "only1"
+	case a == "-" && b == "n2":
+		z.Shape = "only2"
+	case a == "-" && b == "-":
+		z.Shape = "none"
+	default:
+		z.Shape = "odd(" + a + "," + b + ")"
+	}
+}
+
+func (s *verifC20Scn) slotByScid(scid uint64) *verifC20Slot {
+	for _, l := range [][]*verifC20Slot{s.slots, s.hidden} {
+		for _, sl := range l {
+			if sl.scid().ToUint64() == scid {
+				return sl
+			}
+		}
+	}
+	return nil
+}
+
+func (s *verifC20Scn) track(z *verifC20Zombie) {
+	if s.zBy == nil {
+		s.zBy = map[uint64]*verifC20Zombie{}
+	}
+	if _, ok := s.zBy[z.Scid]; !ok {
+		s.zombies = append(s.zombies, z)
+		s.c.zTracked = append(s.c.zTracked, z.Scid)
+	} else {
+		for i, o := range s.zombies {
+			if o.Scid == z.Scid {
+				s.zombies[i] = z
+			}
+		}
+	}
+	s.zBy[z.Scid] = z
+}
+
+// buildCU makes a field-consistent channel_update.
+func (s *verifC20Scn) buildCU(scid lnwire.ShortChannelID, dir int, ts uint32,
+	k *btcec.PrivateKey) *lnwire.ChannelUpdate1 {
+
+	r := s.r
+	capMsat := s.capOf(scid) * 1000
+	minH := uint64(1 + r.Intn(1000))
+	maxH := capMsat / uint64(1+r.Intn(4))
+	if maxH < minH {
+		maxH = minH
+	}
+	u := &lnwire.ChannelUpdate1{
+		ChainHash:       *chaincfg.MainNetParams.GenesisHash,
+		ShortChannelID:  scid,
+		Timestamp:       ts,
+		MessageFlags:    lnwire.ChanUpdateRequiredMaxHtlc,
+		ChannelFlags:    lnwire.ChanUpdateChanFlags(dir),
+		TimeLockDelta:   uint16(1 + r.Intn(2000)),
+		HtlcMinimumMsat: lnwire.MilliSatoshi(minH),
+		HtlcMaximumMsat: lnwire.MilliSatoshi(maxH),
+		BaseFee:         uint32(r.Intn(100000)),
+		FeeRate:         uint32(r.Intn(100000)),
+	}
+	verifC20SignCU(u, k)
+	return u
+}
+
+// zombify brings one channel into the zombie index (a harness action playing
+// the role of lnd's pruning job / failed-validation marking; not a judged
+// gossip step). Returns false when nothing could be done.
+func (s *verifC20Scn) zombify(nextIdx *int) bool {
+	c, r, vc := s.c, s.r, s.vc
+	now := uint32(time.Now().Unix())
+	n1, n2 := verifC20Pub(s.keys[0]), verifC20Pub(s.keys[1])
+
+	// candidates for the pruning route: graph channels between our two
+	// nodes (the sentinel channel has other keys).
+	var inGraph []uint64
+	for id, ch := range s.snap.chans {
+		if ch.N1 == n1 && ch.N2 == n2 {
+			inGraph = append(inGraph, id)
+		}
+	}
+	sort.Slice(inGraph, func(i, j int) bool { return inGraph[i] < inGraph[j] })
+
+	via := "direct"
+	if r.Chance(1, 2) {
+		via = "prune"
+	}
+	var slot *verifC20Slot
+	if via == "direct" {
+		for try := 0; try < 4 && slot == nil; try++ {
+			sl := s.freshSlot(verifC20KindGood)
+			id := sl.scid().ToUint64()
+			_, live := s.snap.chans[id]
+			if z, tracked := s.zBy[id]; live || (tracked && s.snap.zomb[z.Scid] != "") {
+				continue
+			}
+			slot = sl
+		}
+		if slot == nil {
+			via = "prune"
+		}
+	}
+
+	entry := map[string]any{"i": *nextIdx, "label": "zombie.make", "type": "env"}
+	*nextIdx++
+
+	if via == "direct" {
+		z := &verifC20Zombie{Slot: slot, Scid: slot.scid().ToUint64(),
+			N: [2][33]byte{n1, n2}, K: [2]*btcec.PrivateKey{s.keys[0], s.keys[1]},
+			Route: "direct"}
+		var err error
+		switch x := r.Intn(10); {
+		case x < 3:
+			z.Stored = [2][33]byte{n1, n2}
+		case x < 6:
+			z.Stored = [2][33]byte{n1, {}}
+		case x < 9:
+			z.Stored = [2][33]byte{{}, n2}
+		}
+		if z.Stored == ([2][33]byte{}) {
+			// the form lnd uses for channels that failed validation.
+			err = c.builder.MarkZombieEdge(z.Scid)
+		} else {
+			err = c.graph.MarkEdgeZombie(c.ctx, lnwire.GossipVersion1, z.Scid,
+				z.Stored[0], z.Stored[1])
+		}
+		if err != nil {
+			c.t.Fatalf("C20 harness: MarkEdgeZombie: %v", err)
+		}
+		z.classify()
+		s.track(z)
+		entry["route"], entry["shape"], entry["scid"] = z.Route, z.Shape, z.Scid
+		s.log = append(s.log, entry)
+		s.snap = c.snapshot()
+		vc.Count("z_made", 1)
+		vc.Count("z_made_direct_"+z.Shape, 1)
+		return true
+	}
+
+	// pruning route: make sure a channel between our nodes is in the graph,
+	// give it 0/1/2 policies with assorted ages, then delete it the way
+	// pruneZombieChans does.
+	var scid uint64
+	if len(inGraph) > 0 && r.Chance(3, 4) {
+		scid = inGraph[r.Intn(len(inGraph))]
+	} else {
+		sl := s.freshSlot(verifC20KindGood)
+		id := sl.scid().ToUint64()
+		if s.snap.zomb[id] != "" {
+			// still a zombie: an announcement would be ignored.
+			if len(inGraph) == 0 {
+				return false
+			}
+			scid = inGraph[r.Intn(len(inGraph))]
+		} else {
+			if _, live := s.snap.chans[id]; !live {
+				s.announced = append(s.announced, sl)
+				s.submit(*nextIdx, "z.pre.ca.valid", verifC20BuildCA(sl.scid(), s.keys))
+				*nextIdx++
+			}
+			scid = id
+		}
+	}
+	ch := s.snap.chans[scid]
+	if ch == nil || ch.N1 != n1 || ch.N2 != n2 {
+		vc.Count("z_prune_channel_not_added", 1)
+		return false
+	}
+	lscid := lnwire.NewShortChanIDFromInt(scid)
+	for d := 0; d < 2; d++ {
+		if r.Chance(7, 20) {
+			continue
+		}
+		age := uint32(verifC20Day + r.Intn(12*verifC20Day))
+		if r.Bool() {
+			age = uint32(15*verifC20Day + r.Intn(45*verifC20Day))
+		}
+		ts := now - age
+		cur := s.snap.chans[scid]
+		if cur == nil {
+			break
+		}
+		if st := cur.Pol[d]; st != nil && st.Ts >= ts {
+			continue
+		}
+		s.submit(*nextIdx, fmt.Sprintf("z.pre.cu.d%d", d), s.buildCU(lscid, d, ts, s.keys[d]))
+		*nextIdx++
+	}
+	ch = s.snap.chans[scid]
+	if ch == nil {
+		return false
+	}
+	strict := r.Bool()
+	z := &verifC20Zombie{Slot: s.slotByScid(scid), Scid: scid,
+		N: [2][33]byte{n1, n2}, K: [2]*btcec.PrivateKey{s.keys[0], s.keys[1]},
+		Route: "prune"}
+	// what the documentation of the pruning code says will be recorded.
+	doc := "both"
+	if strict {
+		z.Route = "prune-strict"
+		p1, p2 := ch.Pol[0], ch.Pol[1]
+		switch {
+		case p1 == nil && p2 == nil:
+		case p1 == nil || (p2 != nil && p1.Ts < p2.Ts):
+			doc = "only1"
+		default:
+			doc = "only2"
+		}
+	}
+	err := c.graph.DeleteChannelEdges(c.ctx, lnwire.GossipVersion1, strict, true, scid)
+	if err != nil {
+		c.t.Fatalf("C20 harness: DeleteChannelEdges(%d): %v", scid, err)
+	}
+	// pruneZombieChans then prunes the nodes that lost their last channel
+	// (lnd's "node has a known channel" test is "node is in the graph").
+	err = c.graph.PruneGraphNodes(c.ctx)
+	if err != nil && !errors.Is(err, graphdb.ErrGraphNodesNotFound) {
+		c.t.Fatalf("C20 harness: PruneGraphNodes: %v", err)
+	}
+	isZ, k1, k2, err := c.vgraph.IsZombieEdge(c.ctx, scid)
+	if err != nil || !isZ {
+		c.t.Fatalf("C20 harness: pruned channel %d not in the zombie index (%v)", scid, err)
+	}
+	z.Stored = [2][33]byte{k1, k2}
+	z.classify()
+	s.track(z)
+	pols := ""
+	for d := 0; d < 2; d++ {
+		if ch.Pol[d] == nil {
+			pols += "-"
+		} else {
+			pols += "p"
+		}
+	}
+	entry["route"], entry["shape"], entry["scid"], entry["documented"], entry["policies"] =
+		z.Route, z.Shape, z.Scid, doc, pols
+	s.log = append(s.log, entry)
+	s.snap = c.snapshot()
+	vc.Count("z_made", 1)
+	vc.Count("z_made_"+z.Route+"_"+z.Shape, 1)
+	vc.Count("z_doc_"+z.Route+"_"+doc, 1)
+	if z.Shape != doc {
+		vc.Count("z_prune_keys_differ_from_documented", 1)
+		vc.Diag("zombie_prune_keys_differ_from_documented:"+z.Route+":"+doc+":"+z.Shape,
+			fmt.Sprintf("channel %d (policies %s) deleted with strictZombiePruning=%v: documentation of makeZombiePubkeys promises shape %s, zombie index holds %s (%x | %x; node1=%x node2=%x)",
+				scid, pols, strict, doc, z.Shape, k1[:], k2[:], n1[:], n2[:]))
+	}
+	return true
+}
+
+var verifC20ZTsNames = []string{"fresh", "fresh", "fresh", "fresh", "fresh",
+	"freshedge", "staleedge", "old", "old", "zero", "ancient", "futnear", "futfar"}
+
+func (s *verifC20Scn) zombieTs(class string) uint32 {
+	r := s.r
+	now := uint32(time.Now().Unix())
+	switch class {
+	case "fresh":
+		return now - uint32(60+r.Intn(13*verifC20Day-60))
+	case "freshedge":
+		return now - uint32(14*verifC20Day-7200-r.Intn(3600))
+	case "staleedge":
+		return now - uint32(14*verifC20Day+7200+r.Intn(3600))
+	case "old":
+		return now - uint32(15*verifC20Day+r.Intn(400*verifC20Day))
+	case "zero":
+		return 0
+	case "ancient":
+		return uint32(1600000000 + r.Intn(1000))
+	case "futnear":
+		return now + uint32(60+r.Intn(13*verifC20Day-60))
+	default: // futfar
+		return now + uint32(15*verifC20Day+r.Intn(1000*verifC20Day))
+	}
+}
+
+func (s *verifC20Scn) pickZombie() *verifC20Zombie {
+	r := s.r
+	var dead []*verifC20Zombie
+	for _, z := range s.zombies {
+		if s.snap.zomb[z.Scid] != "" {
+			dead = append(dead, z)
+		}
+	}
+	if len(dead) > 0 && r.Chance(17, 20) {
+		return dead[r.Intn(len(dead))]
+	}
+	return s.zombies[r.Intn(len(s.zombies))]
+}
+
+func (s *verifC20Scn) genZombieCU() (string, lnwire.Message) {
+	r := s.r
+	z := s.pickZombie()
+	dir := r.Intn(2)
+	var k *btcec.PrivateKey
+	signer := ""
+	switch r.Intn(3) {
+	case 0:
+		k, signer = z.K[0], "node1"
+	case 1:
+		k, signer = z.K[1], "node2"
+	default:
+		k, signer = s.other, "stranger"
+		if r.Bool() {
+			k = verifC20Key(r)
+		}
+	}
+	class := verifC20ZTsNames[r.Intn(len(verifC20ZTsNames))]
+	u := s.buildCU(lnwire.NewShortChanIDFromInt(z.Scid), dir, s.zombieTs(class), k)
+	label := fmt.Sprintf("z.cu.%s.d%d.%s", signer, dir, class)
+	if r.Chance(1, 12) {
+		if m2, _, ok := s.byteflip(u, r.Chance(1, 3)); ok {
+			return label + ".byteflip", m2
+		}
+	}
+	return label, u
+}
+
+func (s *verifC20Scn) genZombieCA() (string, lnwire.Message) {
+	r := s.r
+	z := s.pickZombie()
+	// prefer channels that an update has resurrected and that now wait for
+	// their announcement (the legitimate way back into the graph).
+	var limbo []*verifC20Zombie
+	for _, o := range s.zombies {
+		if s.snap.zomb[o.Scid] == "" && s.snap.chans[o.Scid] == nil && o.Slot != nil {
+			limbo = append(limbo, o)
+		}
+	}
+	if len(limbo) > 0 && r.Chance(3, 4) {
+		z = limbo[r.Intn(len(limbo))]
+	}
+	if z.Slot == nil {
+		return s.genZombieCU()
+	}
+	a := verifC20BuildCA(z.Slot.scid(), s.keys)
+	if r.Chance(1, 4) {
+		d, _ := verifC20Digest(a)
+		i := r.Intn(4)
+		*verifC20CASig(a, i) = verifC20Sign(verifC20Key(r), d)
+		return "z.ca.sig." + verifC20SigNames[i] + ".wrongkey", a
+	}
+	s.announced = append(s.announced, z.Slot)
+	return "z.ca.valid", a
+}
+
+// verifC20ZRef is the reference verdict for a channel_update that targets a
+// zombie entry; everything is derived from the message bytes, the real node
+// keys and the stored keys.
+type verifC20ZRef struct {
+	Dir       int
+	Signer    string // node1 | node2 | other (whose key verifies the signature)
+	Authentic bool   // signature verifies under the real key of the direction's owner
+	Allowed   bool   // that key is the one stored for the zombie
+	Fresh     string // yes | no | ambiguous (wall clock moved across the boundary while lnd ran)
+}
+
+func (zr *verifC20ZRef) may() bool { return zr.Authentic && zr.Allowed && zr.Fresh != "no" }
+func (zr *verifC20ZRef) mustReject() bool {
+	return !zr.Authentic || !zr.Allowed || zr.Fresh == "no"
+}
+func (zr *verifC20ZRef) reason() string {
+	switch {
+	case !zr.Authentic:
+		return "not-signed-by-direction-owner"
+	case !zr.Allowed:
+		return "owner-key-not-stored"
+	case zr.Fresh == "no":
+		return "older-than-prune-window"
+	}
+	return "may-resurrect"
+}
+
+func verifC20RefZombieCU(u *lnwire.ChannelUpdate1, z *verifC20Zombie,
+	tSubmit, tDone time.Time) *verifC20ZRef {
+
+	zr := &verifC20ZRef{Dir: int(u.ChannelFlags & lnwire.ChanUpdateDirection), Signer: "other"}
+	digest, w := verifC20Digest(u)
+	if digest != nil {
+		for i := 0; i < 2; i++ {
+			if verifC20SigOK(w[2:66], digest, z.N[i][:]) {
+				zr.Signer = fmt.Sprintf("node%d", i+1)
+				zr.Authentic = i == zr.Dir
+			}
+		}
+	}
+	zr.Allowed = z.Allow[zr.Dir]
+	ts := time.Unix(int64(u.Timestamp), 0)
+	expiry := graph.DefaultChannelPruneExpiry
+	switch {
+	case tDone.Sub(ts) <= expiry:
+		zr.Fresh = "yes"
+	case tSubmit.Sub(ts) > expiry:
+		zr.Fresh = "no"
+	default:
+		zr.Fresh = "ambiguous"
+	}
+	return zr
+}
+
+// judgeZombies evaluates zombie_stays_dead_unless_authentic for one step.
+// caScid != 0: the step's message is a reference-valid channel_announcement
+// for that (not yet known) channel, which may legitimately re-add it.
+func (s *verifC20Scn) judgeZombies(label, kind string, m lnwire.Message, caScid uint64,
+	before, after *verifC20Snap, tSubmit, tDone time.Time, entry map[string]any) {
+
+	if len(s.zombies) == 0 {
+		return
+	}
+	c, vc := s.c, s.vc
+	u, _ := m.(*lnwire.ChannelUpdate1)
+	lc := verifC20LabelClass(label)
+	// the legitimate way back: resurrected earlier by an authentic update,
+	// now re-added by its (valid) channel_announcement, which also replays
+	// the stashed update.
+	if z := s.zBy[caScid]; caScid != 0 && z != nil && before.zomb[caScid] == "" {
+		if ch := after.chans[caScid]; ch != nil && before.chans[caScid] == nil {
+			vc.Count("z_readded_after_resurrection", 1)
+			if ch.Pol[0] != nil || ch.Pol[1] != nil {
+				vc.Count("z_readded_with_stashed_update", 1)
+			}
+		}
+	}
+	for _, z := range s.zombies {
+		b := before.zomb[z.Scid]
+		if b == "" {
+			continue
+		}
+		a, seen := after.zomb[z.Scid]
+		if !seen {
+			continue
+		}
+		vc.Count("oracle_zombie_evals", 1)
+		if u == nil || u.ShortChannelID.ToUint64() != z.Scid {
+			switch {
+			case a == b:
+			case a == "" && caScid == z.Scid:
+				vc.Count("z_removed_by_valid_ca", 1)
+			default:
+				how := "zombie-removed"
+				if a != "" {
+					how = "zombie-keys-modified"
+				}
+				s.zViolation(fmt.Sprintf("%s:%s:%s", kind, lc, how),
+					fmt.Sprintf("step %q (%s): zombie index entry of channel %d (%s, %s) changed from %q to %q by a message that is not an authentic fresh channel_update of an allowed node for it",
+						label, kind, z.Scid, z.Route, z.Shape, b, a),
+					map[string]any{"scid": z.Scid, "before": b, "after": a})
+			}
+			continue
+		}
+
+		zr := verifC20RefZombieCU(u, z, tSubmit, tDone)
+		cached := c.inPrematureCache(u)
+		entry["zref"] = map[string]any{"route": z.Route, "shape": z.Shape, "dir": zr.Dir,
+			"signer": zr.Signer, "authentic": zr.Authentic, "allowed": zr.Allowed,
+			"fresh": zr.Fresh, "verdict": zr.reason(), "resurrected": a == "", "cached": cached}
+		vc.Count("z_cu", 1)
+		if strings.HasPrefix(z.Shape, "odd") {
+			vc.Count(fmt.Sprintf("z_odd_%s_d%d", zr.Signer, zr.Dir), 1)
+		} else {
+			vc.Count(fmt.Sprintf("z_%s_%s_d%d", z.Shape, zr.Signer, zr.Dir), 1)
+		}
+		vc.Count("z_fresh_"+zr.Fresh, 1)
+		fp := fmt.Sprintf("%s:%s:%s:d%d:%s", z.Route, z.Shape, zr.Signer, zr.Dir, zr.reason())
+		vc.Sig("z|" + fp + fmt.Sprintf("|r%v|c%v", a == "", cached))
+
+		var effects []string
+		switch {
+		case a == b:
+		case a == "":
+			effects = append(effects, "resurrected")
+		default:
+			// keys of the entry rewritten: never justified.
+			s.zViolation(fp+":zombie-keys-modified",
+				fmt.Sprintf("step %q: zombie index entry of channel %d rewritten from %q to %q", label, z.Scid, b, a),
+				map[string]any{"scid": z.Scid, "before": b, "after": a, "zref": entry["zref"]})
+		}
+		if zr.mustReject() {
+			vc.Count("z_must_reject", 1)
+			if cached {
+				effects = append(effects, "cached")
+			}
+			if len(effects) == 0 {
+				vc.Count("z_rejected_ok", 1)
+				continue
+			}
+			s.zViolation(fp+":"+strings.Join(effects, "+"),
+				fmt.Sprintf("step %q: channel_update for zombie channel %d (brought into the zombie index via %s, stored keys %s) has direction bit %d, is signed by %s, freshness=%s => %s; it must leave the zombie index unchanged and must not be kept for replay, but lnd: %s (lnd error=%q). node1=%x node2=%x stored=%x|%x",
+					label, z.Scid, z.Route, z.Shape, zr.Dir, zr.Signer, zr.Fresh, zr.reason(),
+					strings.Join(effects, " and "), entry["err"], z.N[0][:], z.N[1][:], z.Stored[0][:], z.Stored[1][:]),
+				map[string]any{"scid": z.Scid, "before": b, "after": a, "zref": entry["zref"]})
+			continue
+		}
+		// authentic + allowed + not provably stale.
+		vc.Count("z_may_resurrect", 1)
+		if a == "" {
+			vc.Count("z_resurrected_ok", 1)
+		} else if zr.Fresh == "yes" {
+			vc.Count("z_valid_not_resurrected", 1)
+			vc.Diag("zombie_valid_not_resurrected:"+z.Route+":"+z.Shape,
+				fmt.Sprintf("%s: authentic fresh update of an allowed node left channel %d a zombie; lnd err=%q", lc, z.Scid, entry["err"]))
+		}
+	}
 }
 
 func verifC20Min(a, b int) int {
@@ -2186,7 +2800,7 @@ func verifC20Min(a, b int) int {
 	return b
 }
 
-func verifC20RunScenario(t *testing.T, vc *verifCtx, r *verifRng, steps int) {
+func verifC20RunScenario(t *testing.T, vc *verifCtx, r *verifRng, steps, zsteps int) {
 	var keys, sk [4]*btcec.PrivateKey
 	for i := range keys {
 		keys[i] = verifC20Key(r)
@@ -2226,7 +2840,7 @@ func verifC20RunScenario(t *testing.T, vc *verifCtx, r *verifRng, steps int) {
 		forceAt = 0
 	}
 	for i := 0; i < steps; i++ {
-		if vc.Violations()-verifC20Min(verifC20ReencodeSeen, 3) > 20 {
+		if verifC20SoftViolations(vc) > 20 {
 			return
 		}
 		if i == forceAt && !s.mainAnnounced {
@@ -2253,12 +2867,51 @@ func verifC20RunScenario(t *testing.T, vc *verifCtx, r *verifRng, steps int) {
 			s.submit(i, l, m)
 		}
 	}
+	// Zombie phase (own PRNG stream, so the 40 steps above are unaffected):
+	// channels are brought into the zombie index and then targeted by
+	// channel_updates / channel_announcements; see judgeZombies.
+	s.r = r.Fork("zombie")
+	idx := steps
+	for j := 0; j < zsteps; j++ {
+		if verifC20SoftViolations(vc) > 20 {
+			return
+		}
+		dead := 0
+		for _, z := range s.zombies {
+			if s.snap.zomb[z.Scid] != "" {
+				dead++
+			}
+		}
+		x := s.r.Intn(100)
+		switch {
+		case dead == 0 || (x < 12 && dead < 4):
+			if !s.zombify(&idx) && len(s.zombies) == 0 {
+				vc.Count("z_no_zombie_possible", 1)
+				j = zsteps
+			}
+			continue
+		case x < 82:
+			l, m := s.genZombieCU()
+			s.submit(idx, l, m)
+		case x < 92:
+			l, m := s.genZombieCA()
+			s.submit(idx, l, m)
+		case x < 96:
+			l, m := s.genCU()
+			s.submit(idx, l, m)
+		default:
+			l, m := s.genReplay()
+			s.submit(idx, l, m)
+		}
+		idx++
+	}
+
 	// Final flush: one more trickle so that late broadcasts are judged too.
 	c.waitBroadcast(c.quiesce())
 	c.waitBroadcast(c.quiesce())
 	s.checkBroadcasts("end")
 	vc.Count("scenarios", 1)
-	if vc.Violations()-verifC20Min(verifC20ReencodeSeen, 3) == 0 && len(s.log) > 0 {
+	if verifC20SoftViolations(vc) == 0 && len(s.log) > 0 {
 		n := len(s.log)
 		if n > 6 {
 			n = 6
@@ -2345,7 +2998,7 @@ func TestVerifC20(t *testing.T) {
 		}
 	}
 
-	const steps = 40
+	const steps, zsteps = 40, 28
 	total := vc.N(256, 14000)
 	if vc.Only < 0 && vc.Shard == 0 {
 		verifC20ProbeV2(t, vc)
@@ -2355,8 +3008,8 @@ func TestVerifC20(t *testing.T) {
 			continue
 		}
 		r := vc.Rng(i)
-		vc.Case(i, map[string]any{"scenario": i, "steps": steps})
-		verifC20RunScenario(t, vc, r, steps)
+		vc.Case(i, map[string]any{"scenario": i, "steps": steps, "zombie_steps": zsteps})
+		verifC20RunScenario(t, vc, r, steps, zsteps)
 		vc.CaseDone(i)
 	}
 }
